@@ -805,3 +805,24 @@ def fixture_rkth(exp: dict) -> Optional[bytes]:
         k = ki[n]
         hs.append(hfn(_num(k["x"]).to_bytes(size, "big") + _num(k["y"]).to_bytes(size, "big")).digest())
     return hs[0] if len(hs) == 1 else hfn(b"".join(hs)).digest()
+
+
+VOLATILE = ("signature", "isk-signature", "digest", "manifest-crc", "isk-hash")
+
+
+def stable_token(ob: dict) -> str:
+    """Identity of an exported image for the 'distinct' count: SHA-1 of the bytes with the fields that
+    depend on ECDSA's random nonce blanked (so that the same case gives the same token in any run)."""
+    from vf.ref.rom_mbi import Reject
+
+    img = bytearray(ob["image"])
+    try:
+        regions = rom_read(ob, verify=False)["regions"]
+    except Reject:
+        regions = []
+        if ob["exp"]["facts"]["cert"] in ("v21", "vx"):
+            return "case-" + core.short_hash({k: v for k, v in ob["cfg"].items()})
+    for r in regions:
+        if r[0] in VOLATILE:
+            img[r[1]:r[2]] = bytes(r[2] - r[1])
+    return hashlib.sha1(bytes(img)).hexdigest()[:16]
